@@ -23,6 +23,7 @@ import (
 	"verif/harness/internal/jgen"
 	"verif/harness/internal/stores"
 	"verif/harness/internal/vk"
+	"verif/harness/internal/watchdog"
 )
 
 type ev struct {
@@ -697,6 +698,115 @@ func TestC09Concurrent(t *testing.T) {
 			}
 			st2.Close()
 			st2.Remove()
+		}
+		// a follow-up event published by an async handler that is still running while Shutdown drains:
+		// the store is open until Shutdown returns, the publish is recorded and delivered
+		{
+			mem := ebu.NewMemoryStore()
+			busS := ebu.New(ebu.WithStore(mem))
+			gateS := make(chan struct{})
+			var followUps atomic.Int32
+			ebu.Subscribe(busS, func(e ev) {
+				if e.S == "first" {
+					<-gateS
+					ebu.Publish(busS, ev{ID: e.ID + 1, S: "follow-up"})
+				}
+			}, ebu.Async())
+			ebu.Subscribe(busS, func(e ev) {
+				if e.S == "follow-up" {
+					followUps.Add(1)
+				}
+			})
+			ebu.Publish(busS, ev{ID: 1, S: "first"})
+			sd := make(chan error, 1)
+			go func() { sd <- busS.Shutdown(context.Background()) }()
+			for spins := 0; spins < 20; spins++ {
+				runtime.Gosched()
+			}
+			time.Sleep(time.Duration(rng.IntN(3)) * time.Millisecond) // either order of Shutdown and the follow-up is legal
+			close(gateS)
+			serr := <-sd
+			recs, _, _ := mem.Read(context.Background(), ebu.OffsetOldest, 0)
+			if serr != nil || len(recs) != 2 || followUps.Load() != 1 {
+				run.Violation("memory:publish-while-shutdown-drains", fmt.Sprintf("an async handler still running during Shutdown published a follow-up event: Shutdown returned %v, the log holds %d records (want 2), the follow-up was delivered %d times (want 1)", serr, len(recs), followUps.Load()), nil)
+			}
+			run.Count("publishes_while_shutdown_drains", 1)
+		}
+		// many replays open at once, each publishing from inside its callback: every one of those
+		// publishes is recorded too
+		if st3, err := stores.Open(kind, scratch); err == nil {
+			bus3 := ebu.New(ebu.WithStore(st3.Store))
+			for k := 1; k <= 3; k++ {
+				ebu.Publish(bus3, ev{ID: k, S: "h"})
+			}
+			R := 8 + rng.IntN(24)
+			var arrived atomic.Int32
+			var wg3 sync.WaitGroup
+			for r := 0; r < R; r++ {
+				wg3.Add(1)
+				go func(r int) {
+					defer wg3.Done()
+					first := true
+					bus3.Replay(context.Background(), ebu.OffsetOldest, func(*ebu.StoredEvent) error {
+						if first {
+							first = false
+							arrived.Add(1)
+							// stimulus only: give the other replays time to be open at the same moment
+							for spins := 0; spins < 400 && int(arrived.Load()) < R; spins++ {
+								time.Sleep(500 * time.Microsecond)
+							}
+							ebu.Publish(bus3, ev{ID: 5000 + r, S: "m"})
+						}
+						return nil
+					})
+				}(r)
+			}
+			done3 := make(chan struct{})
+			go func() { wg3.Wait(); close(done3) }()
+			hung := false
+			for waited := 0; ; waited++ {
+				select {
+				case <-done3:
+				case <-time.After(20 * time.Second):
+					buf := make([]byte, 4<<20)
+					d := string(buf[:runtime.Stack(buf, true)])
+					if watchdog.BlockedUnderEbu(d) {
+						run.Violation(fam+":publish-from-concurrent-replays-hung", fmt.Sprintf("%d replays of %s open at once, each publishing one event from inside its callback: the publishes never returned", R, kind), map[string]any{"store": kind, "replays": R, "dump": d[:min(len(d), 20000)]})
+						run.Finish()
+						watchdog.Exit()
+					}
+					if waited < 30 {
+						continue
+					}
+					hung = true
+				}
+				break
+			}
+			if !hung {
+				n, markers := 0, map[int]int{}
+				from := ebu.OffsetOldest
+				for step := 0; step < 1000; step++ {
+					evs, next, err := st3.Store.Read(context.Background(), from, 0)
+					if err != nil || len(evs) == 0 {
+						break
+					}
+					for _, e := range evs {
+						var d ev
+						json.Unmarshal(e.Data, &d)
+						if d.ID >= 5000 {
+							markers[d.ID]++
+						}
+					}
+					n += len(evs)
+					from = next
+				}
+				if n != 3+R || len(markers) != R {
+					run.Violation(fam+":record-count-publishes-from-concurrent-replays", fmt.Sprintf("%d replays of %s open at once, each publishing one event from inside its callback: the log holds %d records (%d distinct markers), want %d", R, kind, n, len(markers), 3+R), map[string]any{"store": kind, "replays": R})
+				}
+				run.Count("publishes_from_inside_concurrent_replays", int64(R))
+			}
+			st3.Close()
+			st3.Remove()
 		}
 		run.Case(fmt.Sprintf("%s|P%d|E%d|p%d|sub%v", kind, P, E, procs[i%len(procs)], withSub), P >= 2)
 		run.Count("records_checked", int64(len(all)))
